@@ -85,7 +85,6 @@ EXTERNAL = {
     "argparse.Namespace.__init__": ([], "sets attributes"),
     "argparse.ArgumentParser.exit/0": ([EXIT0 + "!"], "ArgumentParser.exit() -> sys.exit(0); never returns"),
     "argparse.ArgumentParser.exit/1": ([EXIT2 + "!"], "never returns; the only one-argument call in the package is self.exit(2) in ArgumentParser.error (checked by the translator)"),
-    "argparse.ArgumentParser.print_usage": ([], "writes to the given stream"),
     "argparse.ArgumentParser._error_handler": ([], "deprecated error_handler hook: None unless the user sets one (not set in the harness)"),
     "argparse.ArgumentParser.format_help": ([], "help formatting is not modelled (DESIGN 11)"),
     "argparse.ArgumentParser._parse_optional": ([ARGERR], "argparse: ambiguous option"),
@@ -138,6 +137,14 @@ CALLBACKS = {
                "callables failing with ArgumentTypeError/TypeError/ValueError are wrapped by argparse._get_value); calls "
                "action(parser, namespace, values, option_string) for every matched action WITHOUT any wrapping; calls "
                "self._parse_optional, self.error (required/exclusive groups), and for -h print_help()+exit(0)",
+    },
+    "argparse.ArgumentParser.print_usage": {
+        "raises": [], "calls": ["_core.ArgumentParser.get_default"], "catches": ["jsonargparse._namespace.NSKeyError"], "relabel": True,
+        "why": "argparse formats the usage with the parser's formatter; DefaultHelpFormatter._format_usage (module _formatters, not "
+               "followed) calls parser.get_default(key) for every required key inside `try ... except NSKeyError`; get_default runs "
+               "get_defaults(), which re-reads the default config files. Whatever escapes is re-labelled as a raise site of "
+               "ArgumentParser.print_usage so that this path (an exception out of the error channel itself) is told apart from the "
+               "ordinary raise sites",
     },
     "argparse._ActionsContainer.add_argument": {
         "raises": [VE, TE], "calls": [],
@@ -303,20 +310,49 @@ PLAIN_SUBSCRIPT_FUNCS = {
 NAMESPACE_RECEIVER = (r"^(cfg|ns|namespace|defaults|parent|self|.*cfg.*|.*namespace.*|.*_ns|prev_val|val|value|values|init_args|"
                       r"subclass_spec|.*_val|.*_value|loaded_value|data|branch|.*branch.*)$")
 
-# implicit exceptions found by the fuzz (the faithful model reproduces them): (function, class, what)
+# implicit exceptions found by the fuzz (the faithful model reproduces them): (function, class, what, probe).
+# They are OBSERVED facts, not derived from the source: tie/props/c03.translate() runs the probe (a case of the
+# correspondence harness, exit_on_error=False) against the implementation at every run and keeps the site in the IR iff
+# the probe still raises that class with that function on the traceback — so a repaired tree regenerates an IR without it.
 IMPLICIT_SITES = [
-    ("_loaders_dumpers.yaml_load", AE,
-     "stream.strip() when yaml.load returned a dict with only None values and the 'stream' is the list argparse hands to "
-     "nargs... — observed: --cfg=-- -> load_value receives a list -> 'list' object has no attribute 'strip'"),
+    ("_loaders_dumpers.load_value", AE,
+     "value.strip() on a non-str: argparse hands `--cfg=--` to ActionConfigFile as the list []; Path([]) fails with TypeError and "
+     "apply_config calls load_value([]) -> 'list' object has no attribute 'strip'",
+     {"shape": "basic", "entry": "parse_args", "input": ["--cfg=--"]}),
     ("_typehints.adapt_typehints", "builtins.RecursionError",
-     "a self-referential YAML alias (a: &x [*x]) makes adapt_typehints / str(value) recurse without bound"),
+     "a self-referential YAML alias (&x [*x]) under type Any makes adapt_classes_any / adapt_typehints recurse without bound",
+     {"shape": "basic", "entry": "parse_args", "input": ["--any=&x [*x]"]}),
+    ("_namespace.recreate_branches", "builtins.RecursionError",
+     "a self-referential YAML alias anywhere in a config makes Namespace.clone() -> recreate_branches recurse without bound",
+     {"shape": "plain", "entry": "parse_args", "input": ["--cfg=rec.yaml"]}),
+    ("_typehints.adapt_typehints", AE,
+     "the append key `<list of dataclass>+` in a config object/text: merge_config -> apply_appends -> adapt_typehints -> "
+     "get_class_parser runs outside any parser_context, parent_parser.get() is None -> 'NoneType' object has no attribute 'logger'",
+     {"shape": "dataclass", "entry": "parse_object", "input": {"ldc+": 2.5}}),
+    ("_typehints.ActionTypeHint._check_type", "builtins.RuntimeError",
+     "a mapping given where a list is expected (nargs='+' option): `for num, val in enumerate(value)` iterates the dict's keys and "
+     "`value[num] = val` inserts new keys -> 'dictionary changed size during iteration' (needs keys the item type accepts, e.g. {1: 2})",
+     {"shape": "plain", "entry": "parse_object", "input": {"m": {"$": "items", "v": [[1, 2]]}}}),
+    ("_typehints.adapt_typehints", "builtins.OverflowError",
+     "float(val) for an int too large for a float (a 400-digit integer given to a float option): OverflowError is an ArithmeticError, "
+     "not a ValueError",
+     {"shape": "basic", "entry": "parse_args", "input": ["--f=1" + "0" * 400]}),
+    ("_core.ArgumentParser._check_value_key", "builtins.OverflowError",
+     "a plain type= callable such as int applied to a float infinity loaded from the config (it: 1e999)",
+     {"shape": "plain", "entry": "parse_string", "input": "it: 1e999\n"}),
+    ("_actions.ActionConfigFile.apply_config", AE,
+     "cfg[dest].append(cfg_path) when the config key itself was given a scalar by a config file (default config `cfg: x`)",
+     {"shape": "basic", "entry": "parse_args", "input": ["--cfg=good.yaml"], "dcf": "cfg: empty.yaml\n"}),
+    ("_actions._ActionPrintConfig.print_config_if_requested", "yaml.representer.RepresenterError",
+     "--print_config after `--any.k=v` (type Any): the NestedArg tuple is stored as the value and cannot be dumped",
+     {"shape": "basic", "entry": "parse_args", "input": ["--any.firstweekday=[1, 2]", "--print_config"]}),
 ]
 
 EXTRA_ROOTS = []
 # classes added to the universe so that "or any subclass" expands to the concrete classes the fuzz can observe
 EXTRA_UNIVERSE = [
     "builtins.FileNotFoundError", "builtins.PermissionError", "builtins.IsADirectoryError", "builtins.NotADirectoryError",
-    "builtins.UnicodeDecodeError", "builtins.UnicodeError", "builtins.ModuleNotFoundError", "builtins.RecursionError",
+    "builtins.UnicodeDecodeError", "builtins.UnicodeError", "builtins.ModuleNotFoundError", "builtins.RecursionError", "builtins.RuntimeError", "builtins.OverflowError", "yaml.representer.RepresenterError",
     "builtins.IndexError", "builtins.KeyError", "builtins.StopIteration", "builtins.NotImplementedError",
     "json.decoder.JSONDecodeError", "yaml.error.YAMLError", "yaml.error.MarkedYAMLError", "yaml.scanner.ScannerError",
     "yaml.parser.ParserError", "yaml.composer.ComposerError", "yaml.constructor.ConstructorError", "yaml.reader.ReaderError",
@@ -345,13 +381,20 @@ FINDING_KEYS = {
     8: "help-subparser-exit",
     9: "default-config-argument-error",
     10: "nested-parser-argument-error",
+    11: "usage-formatting-reraises",
+    12: "append-without-parser-context",
+    13: "list-option-given-mapping",
+    14: "overflow-error",
+    15: "cfg-key-in-config",
+    16: "nested-key-on-any-print-config",
 }
 # key -> [(function, class or superclass, kind prefix, modes)]; modes: "t" = only when exit_on_error=True, "f" = only
 # when False, "tf" = both. A site is a finding site only if it ESCAPES an entry point and its class is not the
 # allowed channel of that mode; everything else that escapes is an alarm.
 FINDING_SITES = {
-    "cfg-value-not-str": [("_loaders_dumpers.yaml_load", AE, "implicit", "tf")],
-    "recursive-yaml-alias": [("_typehints.adapt_typehints", "builtins.RecursionError", "implicit", "tf")],
+    "cfg-value-not-str": [("_loaders_dumpers.load_value", AE, "implicit", "tf")],
+    "recursive-yaml-alias": [("_typehints.adapt_typehints", "builtins.RecursionError", "implicit", "tf"),
+                             ("_namespace.recreate_branches", "builtins.RecursionError", "implicit", "tf")],
     "config-content-unreadable": [("_util.Path.get_content", OS, "ext:open", "tf"), ("_util.Path.get_content", VE, "ext:open", "tf"),
                                   ("_util.Path.get_content", OS, "ext:.read", "tf"), ("_util.Path.get_content", VE, "ext:.read", "tf")],
     "path-nul-byte": [("_util.Path.__init__", VE, "ext:os.", "tf")],
@@ -361,4 +404,11 @@ FINDING_SITES = {
     "help-subparser-exit": [("_actions._ActionHelpClassPath.print_help", EXIT2, "boundary:", "f")],
     "default-config-argument-error": [("_core.ArgumentParser.get_defaults", ARGERR, "raise", "t")],
     "nested-parser-argument-error": [("_core.ArgumentParser.error", ARGERR, "raise", "t")],
+    "usage-formatting-reraises": [("_core.ArgumentParser.print_usage", "builtins.Exception", "relabel:", "t")],
+    "append-without-parser-context": [("_typehints.adapt_typehints", AE, "implicit", "tf")],
+    "list-option-given-mapping": [("_typehints.ActionTypeHint._check_type", "builtins.RuntimeError", "implicit", "tf")],
+    "overflow-error": [("_typehints.adapt_typehints", "builtins.OverflowError", "implicit", "tf"),
+                       ("_core.ArgumentParser._check_value_key", "builtins.OverflowError", "implicit", "tf")],
+    "cfg-key-in-config": [("_actions.ActionConfigFile.apply_config", AE, "implicit", "tf")],
+    "nested-key-on-any-print-config": [("_actions._ActionPrintConfig.print_config_if_requested", "yaml.representer.RepresenterError", "implicit", "tf")],
 }
